@@ -50,6 +50,7 @@ func runC17(p *core.Program, r *core.Report) {
 	// round 8: tags of one declaration do not leak into the next; the type table holds package-level objects only
 	chainRules(p, r, "R17", "C06", []string{"C06.R3"}, "effective tags are merged into a fresh map per declaration")
 	chainRules(p, r, "R18", "C13", []string{"C13.R1"}, "the type table holds package-level objects only")
+	c17R19(p, r)
 }
 
 // c17R8: on-demand generation of same-package dependencies.
